@@ -190,6 +190,7 @@ class Built:
         self.nodes: List[Node] = []       # top-level step records
         self.all_nodes: List[Node] = []
         self.durs: Dict[str, Any] = {}
+        self.share_links = False
 
     def leaves(self) -> List[Node]:
         out = []
@@ -198,10 +199,16 @@ class Built:
         return out
 
 
-def _mk_relation(node: Node, siblings: List[Node]):
+def _mk_relation(node: Node, siblings: List[Node], cache: Optional[dict] = None):
     if node.rel is None:
         return None
     t, idx = node.rel
+    if cache is not None:
+        # the library's own constructors and tests re-use one RelationLink object for several operations
+        key = (t, idx)
+        if key not in cache:
+            cache[key] = RelationLink(siblings[idx].obj, REL[t])
+        return cache[key]
     return RelationLink(siblings[idx].obj, REL[t])
 
 
@@ -251,11 +258,12 @@ def build_circuit(ctx, prog: dict, built: Built, path=(), relation=None, parent:
         kw['repetition_strategy'] = FixedRepetitionStrategy(rep)
     circuit = DeclarativeCircuit(**kw)
     nodes: List[Node] = []
+    link_cache = {} if built.share_links else None
     for i, spec in enumerate(prog['steps']):
         node = Node(spec, path + (i,))
         node.parent = parent
         built.all_nodes.append(node)
-        rel = _mk_relation(node, nodes)
+        rel = _mk_relation(node, nodes, link_cache)
         if node.is_sub:
             sub_prog = node.kind[1]
             node.rep = sub_prog.get('rep', 1)
@@ -320,8 +328,9 @@ def remap_children(node: Node, copied: CircuitCompositeOperation):
             remap_children(child, child.obj)
 
 
-def build(ctx, prog: dict) -> Built:
+def build(ctx, prog: dict, share_links: bool = False) -> Built:
     built = Built()
+    built.share_links = share_links
     circuit, nodes = build_circuit(ctx, prog, built)
     built.circuit = circuit
     built.nodes = nodes
